@@ -391,13 +391,19 @@ func (s *Servers) token(w http.ResponseWriter, r *http.Request, body []byte) {
 }
 
 // cacheHeaders sets response headers from query parameters:
-// cc=<Cache-Control value>, expires=<seconds relative to now | raw:<literal>>, date=<seconds relative to now | none>,
+// cc=<Cache-Control value> (repeated: one header line each), expires=<seconds relative to now | raw:<literal>>, date=<seconds relative to now | none>,
 // age=<seconds>, vary=<header names>.
 func (s *Servers) cacheHeaders(w http.ResponseWriter, r *http.Request) {
 	q := r.URL.Query()
 	now := time.Now()
-	if v := q.Get("cc"); v != "" {
-		w.Header().Set("Cache-Control", v)
+	// several cc parameters: several Cache-Control header lines
+	if q.Has("cc") {
+		w.Header().Del("Cache-Control")
+	}
+	for _, v := range q["cc"] {
+		if v != "" {
+			w.Header().Add("Cache-Control", v)
+		}
 	}
 	if v := q.Get("date"); v == "none" {
 		w.Header()["Date"] = nil
